@@ -1,5 +1,7 @@
 //! zyconf — conformance harness binding the TLA+ specifications under /verif/spec to /repo.
 mod common;
+mod conc;
+mod conc_pending;
 mod core;
 mod corpus;
 mod blocks;
@@ -55,6 +57,8 @@ fn main() {
         | "replay-split" => core::replay_split(&args[2], &args[3]),
         | "record-session" => session::record_session(&args[2], args[3].parse().unwrap(), args[4].parse().unwrap()),
         | "replay-session" => session::replay_session(&args[2], &args[3]),
+        | "stress-snapshots" => conc::stress_snapshots(&args[2], args[3].parse().unwrap(), args[4].parse().unwrap()),
+        | "pending-slot" => conc::pending_slot(&args[2]),
         | "corpus-run" => {
             // zyconf corpus-run OUT MUTANTS_PER_FILE MAX_STEPS
             corpus::corpus_run(&args[2], args[3].parse().unwrap(), args[4].parse().unwrap());
